@@ -49,33 +49,76 @@ def ndata(t):
 
 
 # =========================================================================== redirect_tree
-def rr_setup(sort):
+# ONE set of clauses, evaluated over two kinds of tables:
+#   * symbolic size (columns SArr): the PROOF -- any number of nodes, the root at any position, loops cut by invariants;
+#   * fixed small sizes (columns NArr, n = 1..RR_SIZES): the same clauses become quantifier-free formulas over the unrolled code, so
+#     that a wrong statement ANYWHERE in the function (before, inside or after a loop) is answered by the solver with a counter-model
+#     (`sat`) of the property's own clause, not merely with "no longer provable".
+def ZA(a):
+    """a column as a z3 array term: the array of a symbolic-length SArr, a concrete-shape NArr spelled out cell by cell"""
+    if isinstance(a, SArr):
+        return a.arr
+    items = a.items
+    A = z3.K(I, to_z3(items[-1], a.kind))
+    for j, x in enumerate(items[:-1]):
+        A = z3.Store(A, j, to_z3(x, a.kind))
+    return A
+
+
+def size(a):
+    """length of a column: a z3 term (SArr) or a Python int (NArr)"""
+    return a.nz() if isinstance(a, SArr) else int(a.shape[0])
+
+
+def _n(t):
+    return size(col(t, "pid"))
+
+
+def _uid(a):
+    return a.root().uid if isinstance(a, NArr) else a.uid
+
+
+def forall2(n, f):
+    """forall a, b in [0, n): f(a, b)  -- expanded when n is a Python int"""
+    if isinstance(n, int):
+        return z3.And(*[f(z3.IntVal(a), z3.IntVal(b)) for a in range(n) for b in range(n)]) if n else z3.BoolVal(True)
+    a, b = z3.Int(fresh_name("a")), z3.Int(fresh_name("b"))
+    return z3.ForAll([a, b], z3.Implies(z3.And(a >= 0, a < n, b >= 0, b < n), f(a, b)))
+
+
+def same_len(a, n):
+    m = size(a)
+    if isinstance(m, int) and isinstance(n, int):
+        return z3.BoolVal(m == n)
+    return m == n
+
+
+def rr_setup(sort, n=None):
     def f(S):
-        t = sym_tree(S, "t", frozen=True, extra_cols=("tag",))
+        t = sym_tree(S, "t", frozen=True, extra_cols=("tag",)) if n is None else _fixed_tree(S, n, "t", "tag")
         r = S.int("new_root")
-        return dict(tree=t, new_root=r, sort=sort, __ghost__={"root": S.int("root"), "srootrow": r})
+        return dict(tree=t, new_root=r, sort=sort, __ghost__={"root": S.int("root"), "srootrow": r, "input": t})
 
     return f
 
 
 def _rr(E, v, o):
     t0 = o["tree"]
-    return t0, nof(t0), col(t0, "pid").arr, E.spec_extra["depth"].f, E.spec_extra["root"].z, to_z3(o["new_root"], "int")
+    return t0, _n(t0), ZA(col(t0, "pid")), E.spec_extra["depth"].f, E.spec_extra["root"].z, to_z3(o["new_root"], "int")
 
 
 def rr_pre(which):
     def f(E, v, o):
         t0, n, pid, depth, root, r = _rr(E, v, v)
-        i = z3.Int(fresh_name("i"))
-        rng = z3.And(i >= 0, i < n)
         if which == "ids-are-positions":
-            return z3.ForAll([i], z3.Implies(rng, z3.Select(col(t0, "id").arr, i) == i))
+            ids = ZA(col(t0, "id"))
+            return forall_rng(n, lambda i: z3.Select(ids, i) == i)
         if which == "root":
             return z3.And(root >= 0, root < n, z3.Select(pid, root) == -1)
         if which == "others-have-a-parent":
-            return z3.ForAll([i], z3.Implies(z3.And(rng, i != root), z3.And(z3.Select(pid, i) >= 0, z3.Select(pid, i) < n)))
+            return forall_rng(n, lambda i: z3.Implies(i != root, z3.And(z3.Select(pid, i) >= 0, z3.Select(pid, i) < n)))
         if which == "depth-witness":
-            return z3.And(depth(root) == 0, z3.ForAll([i], z3.Implies(z3.And(rng, i != root), z3.And(depth(i) == depth(z3.Select(pid, i)) + 1, depth(i) > 0))))
+            return z3.And(depth(root) == 0, forall_rng(n, lambda i: z3.Implies(i != root, z3.And(depth(i) == depth(z3.Select(pid, i)) + 1, depth(i) > 0))))
         if which == "new-root-is-a-node":
             return z3.And(r >= 0, r < n)
 
@@ -86,90 +129,135 @@ RR_PRE = [rr_pre(w) for w in ("ids-are-positions", "root", "others-have-a-parent
 
 
 def _path(v):
-    """(array of node indices, length) of the list of handles `path` (concrete at the loop entry, symbolic afterwards)"""
+    """(array of node indices, length) of the list of handles `path`: a concrete list (its length a Python int) at the entry of loop 0
+    and in the unrolled fixed-size variants, a symbolic list after a cut loop"""
     p = v["path"]
     if p.items is not None:
         P = z3.K(I, z3.IntVal(0))
         for j, x in enumerate(p.items):
             P = z3.Store(P, j, to_z3(x.fields["idx"], "int"))
-        return P, z3.IntVal(len(p.items))
+        return P, len(p.items)
     return p.cols[0], zint(p.n)
 
 
 def _handles_on(v, t):
-    p = v["path"]
+    p = v.get("path")
+    if not isinstance(p, PList):
+        return False
     if p.items is not None:
         return all(isinstance(x, Obj) and x.fields.get("attach") is t for x in p.items)
     return getattr(p, "attach", None) is t
 
 
 def rr_inv0(which):
-    """loop 0 (walk to the root): path[0] = new_root, path[j+1] = pid[path[j]], depth falls by one per step"""
-    def f(E, v, o):
+    """loop 0 (walk to the root).  Every clause is RELATIVE TO THE STATE AT THE LOOP HEAD (`entry`): path[0] = new_root,
+    path[j+1] = parent of path[j] in the copy as it was when the walk started, depth falls by one per step, and the walk leaves
+    every column of the copy as it found it.  What the code did to the copy BEFORE the walk is not re-stated here: it reaches the
+    postconditions through the path condition, so a wrong statement before the loop fails a postcondition, not an invariant."""
+    def f(E, v, o, entry):
         t0, n, pid0, depth, root, r = _rr(E, v, o)
+        te = entry["tree"]
+        if not isinstance(te, Obj) or not isinstance(v["tree"], Obj) or not isinstance(v.get("path"), PList):
+            return False
         P, L = _path(v)
-        j = z3.Int(fresh_name("j"))
         if which == "nonempty":
             return L >= 1
-        if which == "handles-on-the-copy":
-            return _handles_on(v, v["tree"]) and v["tree"].uid not in E.entry_uids
+        if which == "handles-on-the-copy":  # (that the copy is fresh storage is the postcondition `fresh-storage`; a write into the input is `safety/frame-write`)
+            return _handles_on(v, v["tree"])
         if which == "starts-at-new-root":
             return z3.Select(P, 0) == r
         if which == "nodes-in-range":
-            return z3.ForAll([j], z3.Implies(z3.And(j >= 0, j < L), z3.And(z3.Select(P, j) >= 0, z3.Select(P, j) < n)))
+            return forall_rng(L, lambda j: z3.And(z3.Select(P, j) >= 0, z3.Select(P, j) < n), "j")
         if which == "follows-parent-links":
-            return z3.ForAll([j], z3.Implies(z3.And(j >= 0, j < L - 1), z3.Select(pid0, z3.Select(P, j)) == z3.Select(P, j + 1)))
+            pid_e = ZA(col(te, "pid"))
+            return forall_rng(L - 1, lambda j: z3.Select(pid_e, z3.Select(P, j)) == z3.Select(P, j + 1), "j")
         if which == "depth-falls-by-one":
-            return z3.ForAll([j], z3.Implies(z3.And(j >= 0, j < L), depth(z3.Select(P, j)) == depth(r) - j))
-        if which == "copy-not-yet-modified":
+            return forall_rng(L, lambda j: depth(z3.Select(P, j)) == depth(r) - j, "j")
+        if which == "copy-untouched-by-the-walk":
             t = v["tree"]
+            if set(ndata(t)) != set(ndata(te)):
+                return False
             out = []
-            for k in ndata(t0):
-                out.append(z3.And(col(t, k).nz() == n, forall_rng(n, lambda i, _k=k: z3.Select(col(t, _k).arr, i) == z3.Select(col(t0, _k).arr, i))))
+            for k in ndata(te):
+                a1, ae = ZA(col(t, k)), ZA(col(te, k))
+                out.append(z3.And(same_len(col(t, k), size(col(te, k))), forall_rng(n, lambda i, _a1=a1, _ae=ae: z3.Select(_a1, i) == z3.Select(_ae, i))))
             return z3.And(*out)
 
     return (which, f)
 
 
-def _new_pid(E, v, o, i, upto=None):
-    """the parent table after reversing the path edges for path positions 1..upto (all when None)"""
+WALK_VAR = "p"  # the name the carrier gives to the node the walk looks at next
+
+
+def rr_walk_var(E, v, o, entry):
+    """loop 0, only when the loop CARRIES the walk variable (`p = path[-1].parent()` before the loop and at the end of its body instead of the
+    walrus in the loop test): p is the parent of the last path node in the copy as it was at the loop head, None at the root"""
+    if WALK_VAR not in entry:
+        return True
+    p, t, te = v.get(WALK_VAR), v["tree"], entry["tree"]
+    if not isinstance(te, Obj) or not isinstance(v.get("path"), PList):
+        return False
+    P, L = _path(v)
+    up = z3.Select(ZA(col(te, "pid")), z3.Select(P, L - 1))
+    if p is None:
+        return up == -1
+    if not (isinstance(p, Obj) and p.fields.get("attach") is t and "idx" in p.fields):
+        return False
+    return z3.And(up != -1, to_z3(p.fields["idx"], "int") == up)
+
+
+def rr_opt_parent(eng, cur):
+    """rebind rule of loop 0 for a loop-carried walk variable: at the loop head it holds None or a handle on the tree the path's handles are on"""
+    from pyvc.engine import Unsupported
+    from pyvc.values import fresh
+
+    path = eng.visible_vars().get("path")
+    if not isinstance(path, ext_C07.NodeList):
+        raise Unsupported("redirect_tree loop 0: the walk variable is carried by the loop but `path` is not a list of node handles")
+    if eng.branch(fresh("bool", "walk_done")):
+        return None
+    return Obj(path.node_cls, dict(attach=path.attach, idx=fresh("int", "walk_at"), names=path.names))
+
+
+def _on_path(E, v, o, i, upto=None):
+    """(position j, `node i sits at path position j with 1 <= j <= upto`): j = depth(r) - depth(i) is the only path position that can hold i"""
     t0, n, pid0, depth, root, r = _rr(E, v, o)
     P, L = _path(v)
-    j = depth(r) - depth(i)  # the only path position that can hold node i
+    j = depth(r) - depth(i)
     on = z3.And(j >= 1, j < L, z3.Select(P, j) == i)
     if upto is not None:
         on = z3.And(on, j <= upto)
-    return z3.If(on, z3.Select(P, j - 1), z3.If(i == r, z3.IntVal(-1), z3.Select(pid0, i)))
-
-
-def _state_after_swap(E, v, o, upto):
-    """explicit description of the copy while the path edges are being reversed: pid as in _new_pid, the types
-    of the old and the new root exchanged, every other column as in the input"""
-    t0, n, pid0, depth, root, r = _rr(E, v, o)
-    t = v["tree"]
-    ty0 = col(t0, "type").arr
-    out = {}
-    for c in ndata(t0):
-        a1, a0 = col(t, c).arr, col(t0, c).arr
-        if c == "pid":
-            out[c] = forall_rng(n, lambda i: z3.Select(a1, i) == _new_pid(E, v, o, i, upto=upto))
-        elif c == "type":
-            out[c] = forall_rng(n, lambda i: z3.Select(a1, i) == z3.If(i == r, z3.Select(ty0, root), z3.If(i == root, z3.Select(ty0, r), z3.Select(ty0, i))))
-        else:
-            out[c] = forall_rng(n, lambda i, _a1=a1, _a0=a0: z3.Select(_a1, i) == z3.Select(_a0, i))
-    return out
+    return j, on
 
 
 def rr_inv1(c):
-    """loop 1 (reverse the edges of the path): the whole state of the copy, column by column"""
-    def f(E, v, o):
+    """loop 1 (reverse the edges of the path), k iterations done -- RELATIVE TO THE STATE AT THE LOOP HEAD (`entry`, i.e. after the
+    statements between the two loops): every column but the parent column is as it was there; the parent column differs from
+    it exactly at path[1..k], where it holds the preceding path node"""
+    def f(E, v, o, entry):
         t0 = o["tree"]
-        t = v["tree"]
-        if set(ndata(t)) != set(ndata(t0)) or not _handles_on(v, t):
+        t, te = v["tree"], entry["tree"]
+        if not isinstance(t, Obj) or not isinstance(te, Obj) or set(ndata(t)) != set(ndata(te)) or c not in ndata(te) or not _handles_on(v, t):
             return False
-        return z3.And(col(t, c).nz() == nof(t0), _state_after_swap(E, v, o, to_z3(v["_k1"], "int"))[c])
+        n = _n(t0)
+        P, L = _path(v)
+        a1, ae = ZA(col(t, c)), ZA(col(te, c))
+        if c == "pid":
+            k = to_z3(v["_k1"], "int")
+
+            def cell(i):
+                j, on = _on_path(E, v, o, i, upto=k)
+                return z3.Select(a1, i) == z3.If(on, z3.Select(P, j - 1), z3.Select(ae, i))
+
+            body = forall_rng(n, cell)
+        else:
+            body = forall_rng(n, lambda i: z3.Select(a1, i) == z3.Select(ae, i))
+        return z3.And(same_len(col(t, c), size(col(te, c))), body)
 
     return (f"column-{c}", f)
+
+
+RR_SIZES = (1, 2, 3, 4)  # the fixed-size variants (counter-model finders) of redirect_tree
 
 
 def register_redirect(R):
@@ -188,40 +276,40 @@ def register_redirect(R):
             if which.startswith("sorted/"):
                 return sorted_post(E, v, o, t, which[7:])
             nd, nd0 = ndata(t), ndata(t0)
-            i = z3.Int(fresh_name("i"))
-            if which == "same-columns-and-size":
-                return set(nd) == set(nd0) and z3.And(*[col(t, c).nz() == n for c in nd0])
+            if which == "same-columns-and-size" or set(nd) != set(nd0):
+                return set(nd) == set(nd0) and z3.And(*[same_len(nd[c], n) for c in nd0])
             if which == "fresh-storage":
-                return t.uid not in E.entry_uids and t.fields["ndata"].uid not in E.entry_uids and all(nd[c].uid not in E.entry_uids for c in nd) and len({nd[c].uid for c in nd}) == len(nd)
-            pid1 = col(t, "pid").arr
+                return (t.uid not in E.entry_uids and t.fields["ndata"].uid not in E.entry_uids and all(_uid(nd[c]) not in E.entry_uids for c in nd)
+                        and len({_uid(nd[c]) for c in nd}) == len(nd))
+            pid1 = ZA(nd["pid"])
             if which == "requested-node-is-root":
                 return z3.Select(pid1, r) == -1
             if which == "every-node-reaches-the-new-root":
-                # sort=False: ghost witnesses prow / sdepth (defined by the hint below); sort=True: proved as the precondition of the _sort_tree call
+                # sort=False: ghost witnesses prow / sdepth (defined by the hint below) for symbolic sizes, the finite formula for a fixed size;
+                # sort=True: proved as the precondition of the _sort_tree call
                 if v["sort"]:
                     return True
-                return z3.And(_is_tree(E, col(t, "id"), col(t, "pid"), "parents-exist"), _is_tree(E, col(t, "id"), col(t, "pid"), "every-row-reaches-the-root"))
+                return z3.And(_is_tree(E, nd["id"], nd["pid"], "parents-exist"), _is_tree(E, nd["id"], nd["pid"], "every-row-reaches-the-root"))
             if which == "it-is-the-only-root":
                 return forall_rng(n, lambda i: z3.Implies(i != r, z3.And(z3.Select(pid1, i) >= 0, z3.Select(pid1, i) < n)))
+            if not isinstance(v.get("path"), PList):
+                return False
+            P, L = _path(v)
             if which == "path-edges-reversed":
-                P, L = _path(v)
-                j = z3.Int(fresh_name("j"))
-                return z3.ForAll([j], z3.Implies(z3.And(j >= 0, j < L - 1), z3.Select(pid1, z3.Select(P, j + 1)) == z3.Select(P, j)))
+                return forall_rng(L - 1, lambda j: z3.Select(pid1, z3.Select(P, j + 1)) == z3.Select(P, j), "j")
             if which == "path-ends-at-the-old-root":
-                P, L = _path(v)
                 return z3.Select(P, L - 1) == root
             if which == "off-path-parents-kept":
-                P, L = _path(v)
-                jj = depth(r) - depth(i)
-                onp = z3.And(jj >= 0, jj < L, z3.Select(P, jj) == i)
-                return z3.ForAll([i], z3.Implies(z3.And(i >= 0, i < n, z3.Not(onp)), z3.Select(pid1, i) == z3.Select(pid0, i)))
+                def offp(i):
+                    jj = depth(r) - depth(i)
+                    onp = z3.And(jj >= 0, jj < L, z3.Select(P, jj) == i)
+                    return z3.Implies(z3.Not(onp), z3.Select(pid1, i) == z3.Select(pid0, i))
+
+                return forall_rng(n, offp)
             if which == "undirected-edges-kept":
-                a, b = z3.Ints(fresh_name("a") + " " + fresh_name("b"))
-                e0 = z3.Or(z3.Select(pid0, a) == b, z3.Select(pid0, b) == a)
-                e1 = z3.Or(z3.Select(pid1, a) == b, z3.Select(pid1, b) == a)
-                return z3.ForAll([a, b], z3.Implies(z3.And(a >= 0, a < n, b >= 0, b < n), e0 == e1))
+                return forall2(n, lambda a, b: z3.Or(z3.Select(pid0, a) == b, z3.Select(pid0, b) == a) == z3.Or(z3.Select(pid1, a) == b, z3.Select(pid1, b) == a))
             if which == "types-of-old-and-new-root-exchanged":
-                ty0, ty1 = col(t0, "type").arr, col(t, "type").arr
+                ty0, ty1 = ZA(nd0["type"]), ZA(nd["type"])
                 return z3.And(z3.Select(ty1, r) == z3.Select(ty0, root), z3.Select(ty1, root) == z3.Select(ty0, r),
                               forall_rng(n, lambda i: z3.Implies(z3.And(i != r, i != root), z3.Select(ty1, i) == z3.Select(ty0, i))))
             if which == "every-other-attribute-kept":
@@ -229,10 +317,86 @@ def register_redirect(R):
                 for c in nd0:
                     if c in ("pid", "type"):
                         continue
-                    out.append(forall_rng(n, lambda i, _c=c: z3.Select(col(t, _c).arr, i) == z3.Select(col(t0, _c).arr, i)))
+                    a1, a0 = ZA(nd[c]), ZA(nd0[c])
+                    out.append(forall_rng(n, lambda i, _a1=a1, _a0=a0: z3.Select(_a1, i) == z3.Select(_a0, i)))
                 return z3.And(*out)
+            raise KeyError(which)
 
         return (which, f)
+
+    def prop_post(which):
+        """the clause of the PROPERTY STATEMENT over the whole result, the same text for both sort modes: node k of the result is
+        node sigma(k) of the input -- sigma the identity for sort=False, the row permutation of the final sort for sort=True"""
+        def f(E, v, o):
+            t0, n, pid0, depth, root, r = _rr(E, v, o)
+            res = v["result"]
+            if not isinstance(res, Obj) or res is not v["tree"]:
+                return False
+            if which == "input-untouched":
+                live = E.spec_extra["input"]
+                if live is res or live.uid not in E.entry_uids or set(ndata(live)) != set(ndata(t0)) or live.fields["ndata"] is res.fields["ndata"]:
+                    return False
+                if any(ndata(live)[c] is ndata(res)[c] or _uid(ndata(live)[c]) == _uid(ndata(res)[c]) for c in ndata(live) if c in ndata(res)):
+                    return False  # a column array shared between input and result
+                out = []
+                for c in ndata(t0):
+                    a1, a0 = ZA(col(live, c)), ZA(col(t0, c))
+                    out.append(z3.And(same_len(col(live, c), n), forall_rng(n, lambda i, _a1=a1, _a0=a0: z3.Select(_a1, i) == z3.Select(_a0, i))))
+                return z3.And(*out)
+            nd, nd0 = ndata(res), ndata(t0)
+            if set(nd) != set(nd0) or not all(isinstance(nd[c], (SArr, NArr)) for c in nd):
+                return False
+            if v["sort"]:
+                if "presort" not in E.ghost:
+                    return False
+                _, sg, inv = E.ghost["presort"]
+                sigma = lambda k: z3.Select(sg, k)
+                back = inv
+            else:
+                sigma = back = lambda k: k
+            fixed = isinstance(n, int)
+            k, a, b = z3.Ints("rr_k rr_a rr_b")
+            rng = lambda x: z3.And(x >= 0, x < n)
+            all1 = (lambda f1: forall_rng(n, f1)) if fixed else (lambda f1: z3.ForAll([k], z3.Implies(rng(k), f1(k))))  # fixed bound names for symbolic sizes
+            ty0 = ZA(nd0["type"])
+            if which == "every-node-kept":
+                # same number of nodes, numbered by position, and sigma is a bijection between the nodes of the result and of the input
+                ids = ZA(nd["id"])
+                return z3.And(*[same_len(nd[c], n) for c in nd], all1(lambda k: z3.And(z3.Select(ids, k) == k, rng(sigma(k)), back(sigma(k)) == k, rng(back(k)), sigma(back(k)) == k)))
+            if which == "every-attribute-kept":
+                out = []
+                for c in nd0:
+                    if c not in ("id", "pid", "type"):
+                        a1, a0 = ZA(nd[c]), ZA(nd0[c])
+                        out.append(all1(lambda k, _a1=a1, _a0=a0: z3.Select(_a1, k) == z3.Select(_a0, sigma(k))))
+                return z3.And(*out)
+            if which == "only-the-types-of-old-and-new-root-exchanged":
+                ty1 = ZA(nd["type"])
+                return all1(lambda k: z3.Select(ty1, k) == z3.If(sigma(k) == r, z3.Select(ty0, root), z3.If(sigma(k) == root, z3.Select(ty0, r), z3.Select(ty0, sigma(k)))))
+            pid1 = ZA(nd["pid"])
+            if which == "undirected-edge-set-kept":
+                edge = lambda a, b: z3.Or(z3.Select(pid1, a) == b, z3.Select(pid1, b) == a) == z3.Or(z3.Select(pid0, sigma(a)) == sigma(b), z3.Select(pid0, sigma(b)) == sigma(a))
+                if fixed:
+                    return forall2(n, edge)
+                goal = z3.ForAll([a, b], z3.Implies(z3.And(rng(a), rng(b)), edge(a, b)))
+                if v["sort"]:
+                    # a consequence of clauses ALREADY PROVED on this path (each an obligation of its own; they precede this one in `ensures`): the
+                    # edge set of the table handed to the final sort, and that the result is its sorted relabelling.  Proved from those alone (a
+                    # pure lemma about the clauses, no fact about the code enters), then the clause itself is this very term
+                    used = ("same-columns-and-size", "requested-node-is-root", "it-is-the-only-root", "undirected-edges-kept", "every-other-attribute-kept", "sorted/requested-node-becomes-node-0",
+                            "sorted/permutation-of-the-rows", "sorted/ids-are-positions", "sorted/root-first", "sorted/parents-kept-and-before-children")
+                    hyps = [to_z3(E.truth(post(w)[1](E, v, o)), "bool") for w in used] + [rr_pre("ids-are-positions")[1](E, o, o), n >= 1]
+                    prove_from(E, "redirect_tree/step/edge-set-read-through-the-renumbering", hyps, goal)
+                    return z3.simplify(goal)
+                return goal
+            if which == "requested-node-is-the-unique-root":
+                rho = back(r)  # where the requested node sits in the result
+                first = (rho == 0) if v["sort"] else z3.BoolVal(True)
+                return z3.And(rng(rho), sigma(rho) == r, first, z3.Select(pid1, rho) == -1,
+                              all1(lambda k: z3.Implies(k != rho, z3.And(z3.Select(pid1, k) >= 0, z3.Select(pid1, k) < n))))
+            raise KeyError(which)
+
+        return ("property/" + which, f)
 
     def sorted_post(E, v, o, S, w):
         """sort=True: the result is the sorted relabelling of the re-rooted table S"""
@@ -240,7 +404,7 @@ def register_redirect(R):
             return True
         res = v["result"]
         _, sg, inv = E.ghost["presort"]
-        n = nof(S)
+        n = _n(S)
         r = to_z3(o["new_root"], "int")
         nd, nd0 = ndata(res), ndata(S)
         if set(nd) != set(nd0):
@@ -248,7 +412,7 @@ def register_redirect(R):
         if w == "requested-node-becomes-node-0":
             return z3.Select(sg, 0) == r
         if w == "every-column-permuted-alike":
-            return z3.And(*[z3.And(alen(nd[c]) == n, forall_rng(n, lambda k, _c=c: sel(nd[_c], k) == sel(nd0[_c], z3.Select(sg, k)), "k")) for c in nd0 if c not in ("id", "pid")])
+            return z3.And(*[z3.And(same_len(nd[c], n), forall_rng(n, lambda k, _c=c: sel(nd[_c], k) == sel(nd0[_c], z3.Select(sg, k)), "k")) for c in nd0 if c not in ("id", "pid")])
         return _sorted_relabelling(E, nd0["id"], nd0["pid"], nd["id"], nd["pid"], sg, inv, n, w)
 
     def sort_call_hint(E, vars):
@@ -258,6 +422,8 @@ def register_redirect(R):
         o = E.top_old
         if not isinstance(vars.get("path"), PList) or not isinstance(vars.get("tree"), Obj):
             return  # not the call site this hint was written for: no witnesses, the precondition stays unproved
+        if not isinstance(col(vars["tree"], "pid"), SArr):
+            return  # a table of fixed size: "the table is a tree" is a finite formula, there are no witnesses to define
         t0, n, pid0, depth, root, r = _rr(E, vars, o)
         P, L = _path(vars)
         prow, sdepth = E.spec_extra["prow"].f, E.spec_extra["sdepth"].f
@@ -276,24 +442,47 @@ def register_redirect(R):
     global RR_POST
     RR_POST = post  # the clause builder, also used by cat_tree's call-site contract of redirect_tree
 
+    PROPERTY = ("input-untouched", "every-node-kept", "every-attribute-kept", "only-the-types-of-old-and-new-root-exchanged", "undirected-edge-set-kept",
+                "requested-node-is-the-unique-root")
     POSTS = ["same-columns-and-size", "fresh-storage", "requested-node-is-root", "it-is-the-only-root", "path-ends-at-the-old-root", "path-edges-reversed",
              "off-path-parents-kept", "undirected-edges-kept", "every-node-reaches-the-new-root", "types-of-old-and-new-root-exchanged", "every-other-attribute-kept"]
+    # order matters: a proved clause is a hypothesis of the later ones.  The property's clauses about nodes, attributes and types come
+    # FIRST (proved from the code's path condition alone); its clauses about edges and the root come after the helper clauses about
+    # the reversed path, from which they follow
+    ENSURES = ([prop_post(w) for w in PROPERTY[:4]] + [post(w) for w in POSTS] + [post("sorted/" + w) for w in ("requested-node-becomes-node-0", "every-column-permuted-alike") + RELABEL]
+               + [prop_post(w) for w in PROPERTY[4:]])
+    HINTS = {"call:_sort_tree/pre/ids-distinct": sort_call_hint, "post/every-node-reaches-the-new-root": reach_hint}
 
     R.add(
         f"{TU}:redirect_tree",
         prop="C07",
         variants={"sort=False": rr_setup(False), "sort=True": rr_setup(True)},
         requires=RR_PRE,
-        ensures=[post(w) for w in POSTS] + [post("sorted/" + w) for w in ("requested-node-becomes-node-0", "every-column-permuted-alike") + RELABEL],
-        options=dict(hints={"call:_sort_tree/pre/ids-distinct": sort_call_hint, "post/every-node-reaches-the-new-root": reach_hint}),
+        ensures=ENSURES,
+        options=dict(hints=HINTS),
         loops={
-            0: dict(invariant=[rr_inv0(w) for w in ("nonempty", "handles-on-the-copy", "starts-at-new-root", "nodes-in-range", "follows-parent-links", "depth-falls-by-one", "copy-not-yet-modified")],
-                    types={"path": node_handles}, modifies=["tree.ndata"],
+            0: dict(invariant=[rr_inv0(w) for w in ("nonempty", "handles-on-the-copy", "starts-at-new-root", "nodes-in-range", "follows-parent-links", "depth-falls-by-one", "copy-untouched-by-the-walk")]
+                    + [("walk-variable-is-the-parent-of-the-last-node", rr_walk_var)],
+                    types={"path": node_handles}, modifies=["tree.ndata"], rebind={WALK_VAR: rr_opt_parent},
                     decreases="depth(path[len_(path) - 1].idx)"),
             1: dict(invariant=[rr_inv1(c) for c in KEYS + ["tag"]], modifies=["tree.ndata"]),
         },
         ghost_funcs=dict(depth=(["int"], "int"), **SORT_GHOSTS),
-        notes="tree size symbolic; the root may sit at any position (ghost `root`); `depth` is a ghost witness that every node reaches the root",
+        notes="tree size symbolic; the root may sit at any position (ghost `root`); `depth` is a ghost witness that every node reaches the root; loop invariants "
+              "relative to the state at the loop head, the property's clauses (`property/...`) over the whole result in both sort modes",
+    )
+    # second registration (same property, same clause names: the instances are merged): fixed small sizes, NO loop contracts -- both loops
+    # are unrolled, the clauses are quantifier-free.  Nothing is proved here that the symbolic registration does not prove for every
+    # size; its purpose is the converse: a violated clause gets a counter-model.
+    R.add(
+        f"{TU}:redirect_tree",
+        prop="C07",
+        variants={f"n={n},sort={so}": rr_setup(so, n) for n in RR_SIZES for so in (False, True)},
+        requires=RR_PRE,
+        ensures=ENSURES,
+        options=dict(allow_symbolic_unroll=True, feas_timeout_ms=10000),
+        ghost_funcs=dict(depth=(["int"], "int"), **SORT_GHOSTS),
+        notes="tree size fixed per variant (1-4 nodes), every column, the root position and the new root symbolic; loops unrolled, clauses quantifier-free",
     )
 
 
